@@ -44,33 +44,36 @@ with `failEffect` there `newManifest` removes the manifest `CURRENT` already nam
 survives this only through its `CURRENT.bak` fallback, which is outside the `storage.Storage` contract).
 Journal faults of the write path are excluded there (`Act.writerFaultFree`).
 
-`fault_safe_writer_partial` adds them: the same statement for every run whose faults are those of
-`fault_safe_jobs` **and every journal `Write`/`Flush`/`Sync` failure of the write path, with or without effect**,
-interleaved in any way with rotations, flushes, table compactions, transactions and recoveries
-(`consumeSeqOnJournalError = true`, the repair of D4).  The invariant no longer says "current journal = write
-buffer ++ group in flight" but `JournalHolds`: the buffer's groups are in the journal, every group in the
-journal that is not in the buffer is not acknowledged and lies at or below `seq` (a failed group: its numbers
-are consumed, its record may or may not be in the file), and — as long as no journal operation has failed
-(ghost `St.everFailed`) — the journal is exactly the buffer.  Two restrictions remain besides `noD10`/`noD26`,
-both evaluated in the state in which the action is taken (`Act.faultsOK`):
+`fault_safe_writer` adds them: the same statement for **every run whose storage faults avoid only D10 and D26**
+(`Act.faultsOK = noD10 ∧ noD26`): every journal `Write`/`Flush`/`Sync` failure of the write path, with or without
+effect, the `Create` of `newMem` failing with or without effect, and all the faults of `fault_safe_jobs`,
+interleaved in any way with rotations, flushes, table compactions, transactions, crashes and recoveries
+(`consumeSeqOnJournalError = true`, the repair of D4).  What the invariant says for this:
 
-* `Act.trOnCleanJournals`: no `OpenTransaction` while the record of a failed write may wait in a journal the
-  next `Open` replays.  The step that breaks: the commit of the transaction puts `seqNum = tr.seq` into the
-  manifest, above the failed record still in the current journal, so "every replayed record is at or above the
-  manifest's sequence number" (`ViewOK.jseq`; `EditOK.keep` in `Inv.editOK_tr`) fails.  In the code
-  `decodeBatchToMem` then refuses that record ("invalid sequence number"): dropped in the default mode — which
-  is harmless, it was reported as failed — but with `Options.StrictJournal` the next `Open` fails.  The
-  machine's `trBegin` is more liberal than `OpenTransaction`, which first rotates the buffer and waits for its
-  flush (`rotateMem(0, true)`): in the code the hypothesis can only fail when that buffer was empty
-  (`dropFrozenMem`, no manifest commit) *and* the `Remove` of the old journal failed;
-* `Act.rotateCreateOK`: `newMem`'s `Create` of the next journal does not fail after the file was made.
+* not "current journal = write buffer ++ group in flight" but `JournalHolds`: the buffer's groups are in the
+  journal; a group in the journal that is not in the buffer is not acknowledged and lies at or below `seq` (a
+  failed group: its numbers are consumed, its record may or may not be in the file);
+* a record in a journal the next `Open` replays may lie *below the manifest's sequence number* — a transaction
+  was committed while the record of a failed write was still in the current journal (`OpenTransaction` rotates
+  the journal only when the write buffer is not empty).  Such a record is never one that must survive
+  (`ViewOK.jseq`: `v.sq ≤ g.seq ∨ g ∉ must`), it is disjoint from everything in the tables (`ViewOK.tj`), and the
+  replay loop skips it: `replayJ` drops exactly the records below the expected sequence number
+  (`replayJ_filter`; `decodeBatchToMem` checks the first sequence number of the batch before it applies
+  anything, `recoverJournal` logs "journal error … (skipped)").  The same holds inside a recovery
+  (`RecOK.todoSeq`, `MdbOK`: the recovery memdb is the *accepted* part of the journal replayed last).
+  **`Options.StrictJournal` is outside the model** (`Dur.recoverR` is the default, non-strict `Open`): with it
+  `recoverJournal` returns that "invalid sequence number" error and `Open` fails although nothing acknowledged is
+  lost (finding 1 of the fault hunt, `wp27/FINDINGS`);
+* a journal file may have a number *at or above the next file number* — `newMem`'s `Create` made the file and
+  reported an error, `reuseFileNum` handed the number back.  File numbers are per type (`Disk.journals` /
+  `tables` / `manifests`): a table or a manifest may take the same number later.  Such a journal is empty
+  (`RunOK.nums`, `RunOK.jmax`), the next `newMem` truncates and adopts it (`DiskOK.journal_create'`), an `Open`
+  replays it last and finds nothing, `markFileNum` in `recOpen` puts the next file number above it.
 
-Not proved (`fault_safe_full`): those two cases and D10/D26.  Random exploration of the machine with all faults
-(4 000 runs of 200 steps with 18 % injected faults, crash images checked after every step,
-`Scratch/Explore.lean` in the work area) finds no violation of crash consistency for the repaired
-configuration; restricted to `Act.faultsOK` it finds no violation of the invariant either (4 000 runs with
-compactions and transactions), and for the excluded classes it does.  Damaged data under checksum
-verification: C12 (journal chunks) and C13 (table blocks).
+Not proved (`fault_safe_full`): D10 and D26.  Random exploration of the machine (`Scratch/Explore.lean` in the
+work area, crash images checked after every step) finds no violation of the invariant under `Act.faultsOK`
+(3 000 runs of 200 steps with compactions and transactions) and does find violations for D10.  Damaged data
+under checksum verification: C12 (journal chunks) and C13 (table blocks).
 -/
 namespace GoLevel.C08
 open GoLevel GoLevel.Dur
@@ -160,7 +163,7 @@ theorem fault_safe_jobs {cfg : Cfg} (hg : cfg.Good) {as : List Act} {s : St} {d 
     {d' : Disk} (hi : IsCrashImage d d') {c : UCmp} (hl : LawfulUCmp c) (hw : ∀ g ∈ issuedGrps s, g.wf) :
     ∃ r, recoverR cfg d' = .ok r ∧ ∃ sel, C04.Consistent c s r sel := by
   obtain ⟨ch, rfl⟩ := hi
-  have hinv : Inv cfg s d := inv_run_jobFaults hg (inv_init cfg) rfl as hal hr
+  have hinv : Inv cfg s d := inv_run_jobFaults hg (inv_init cfg) as hal hr
   obtain ⟨r, hrec, hgood⟩ := (hinv.disk.crash hg.noTrace ch).open_ok
   exact ⟨r, hrec, C04.consistent_of_good hl hw hgood⟩
 
@@ -188,24 +191,17 @@ example : (run {} init faultyFlush).map (fun sd => (sd.1.job, sd.2.journals.map 
     sd.2.manifests.map (·.1))) = some (none, [2, 3], some 6, [1, 6]) := by decide
 example : C04.readsK {} faultyFlush = some (some [118]) := by decide
 
-/-- **C08 with journal faults of the write path as well.**  Every run whose faults are those of `Act.faultsOK` ends
-    in a state all of whose crash images open and are consistent with the history.  `Act.faultsOK`: every
-    failure inside a flush, a table compaction, a transaction commit or a recovery (D10 and D26 excepted, as in
-    `fault_safe_jobs`), **every failure of a journal `Write`/`Flush`/`Sync` of the write path, with or without
-    effect** (the group is reported as failed, its sequence numbers are consumed, its record may or may not be in
-    the journal; the flush of that journal leaves it out, the next `Open` may replay it), and a `newMem` whose
-    `Create` fails without effect.  Two restrictions make this a `_partial`:
-
-    * `Act.trOnCleanJournals`: `OpenTransaction` happens only when no record of a failed write may be waiting
-      in a journal the next `Open` would replay (no journal operation has failed so far, or those journals
-      are empty).  What breaks without it: the commit of the transaction writes `seqNum := tr.seq` into the
-      manifest while the current journal still holds the failed record with a *lower* sequence number;
-      `ViewOK.jseq` ("every record the next `Open` replays lies at or above the manifest's sequence number",
-      the step `EditOK.keep` of `Inv.editOK_tr`) no longer holds.  The code copes in the default mode
-      (`recoverJournal` skips the record: "invalid sequence number"), and with `StrictJournal` `Open` fails;
-    * `Act.rotateCreateOK`: the `Create` of the new journal in `newMem` does not fail *after* the file was
-      made (the file number is handed back by `reuseFileNum`, the file stays: `RunOK.nums`/`jmax` break). -/
-theorem fault_safe_writer_partial {cfg : Cfg} (hg : cfg.Good) (hcs : cfg.consumeSeqOnJournalError = true)
+/-- **C08 for the whole machine, D10 and D26 excepted.**  Every run whose storage faults are those of
+    `Act.faultsOK` — *any* failure, with or without effect, of any storage operation the machine performs, except
+    the append/`Sync` of a manifest record failing after it took effect (`Act.noD10`) and `SetMeta` failing after
+    it took effect (`Act.noD26`), both evaluated in the state in which the action is taken — ends in a state all
+    of whose crash images open and are consistent with the history (the statement of `C04.crash_consistent`).
+    This includes a journal `Write`/`Flush`/`Sync` of the write path failing with the record in the file followed
+    by a transaction (the record is then *below* the manifest's sequence number and the next `Open` skips it),
+    and `newMem`'s `Create` failing after the file was made (an empty journal with a re-usable number stays).
+    `consumeSeqOnJournalError` is the repair of D4.  `Open` is the default one: with `Options.StrictJournal` the
+    skipped record makes `Open` fail instead (outside the model, see the header). -/
+theorem fault_safe_writer {cfg : Cfg} (hg : cfg.Good) (hcs : cfg.consumeSeqOnJournalError = true)
     {as : List Act} {s : St} {d : Disk}
     (hal : Allowed cfg Act.faultsOK init as) (hr : run cfg init as = some (s, d))
     {d' : Disk} (hi : IsCrashImage d d') {c : UCmp} (hl : LawfulUCmp c) (hw : ∀ g ∈ issuedGrps s, g.wf) :
@@ -227,7 +223,7 @@ def faultyWrites : List Act :=
    .job false .ok, .job false .ok, .job false .ok,                    -- append, sync, install
    .job false .ok, .job false .ok, .job false .ok, .job false .ok]    -- removals, done
 
-/-- … is a run `fault_safe_writer_partial` speaks about; the acknowledged write survives a crash after every
+/-- … is a run `fault_safe_writer` speaks about; the acknowledged write survives a crash after every
     prefix; after the flush the failed records are gone with the journal, the acknowledged value is read -/
 example : allowed {} Act.faultsOK init faultyWrites = true := by decide
 example : (List.range (faultyWrites.length + 1)).all (fun n =>
@@ -237,6 +233,26 @@ example : C04.readsK {} faultyWrites = some (some [118]) := by decide
 example : readsAB {} (faultyWrites.take 8) = some (some [1], some [2]) := by decide
 /-- … after it they are wholly absent -/
 example : readsAB {} faultyWrites = some (none, none) := by decide
+
+/-- the two cases that need the weakened invariant: a write whose journal `Write` fails with the record
+    in the file while the buffer is empty, then a transaction over that journal (its commit puts the manifest's
+    sequence number above the record), an acknowledged write, a crash and the recovery; and before that a
+    `newMem` whose `Create` fails after the file was made, twice, with a table taking the number in between -/
+def staleRecordAndLeftover : List Act :=
+  [.wAppend C04.putKV true .ok, .wSync .ok, .wApply, .wPublish, .wAck,
+   .rotate .failEffect, .rotate .ok, .flushStart] ++ List.replicate 10 (.job false .ok) ++
+  [.rotate .failEffect, .compactStart [4]] ++ List.replicate 10 (.job false .ok) ++
+  [.wAppend [⟨1, [97], [1]⟩] true .failEffect,                        -- "a": failed, but in the journal
+   .trBegin, .trPut [⟨1, [98], [2]⟩], .trCommit] ++ List.replicate 9 (.job false .ok) ++    -- "b" by transaction
+  [.crash {}, .recOpen, .recStep, .recStep] ++ List.replicate 4 (.job false .ok)
+
+example : allowed {} Act.faultsOK init staleRecordAndLeftover = true := by decide
+example : (run {} init staleRecordAndLeftover).isSome = true := by decide
+example : (List.range (staleRecordAndLeftover.length + 1)).all (fun n =>
+    C04.losesAcked {} {} (staleRecordAndLeftover.take n) == some false) = true := by decide
+/-- after the transaction a reopen skips "a" (below the manifest's sequence number) and has "b" and "k" -/
+example : readsAB {} (staleRecordAndLeftover.take 45) = some (none, some [2]) := by decide
+example : C04.readsK {} staleRecordAndLeftover = some (some [118]) := by decide
 
 /-- The statement for the whole machine with faults everywhere (not proved, see the header). -/
 def fault_safe_full : Prop :=
@@ -248,7 +264,7 @@ def fault_safe_full : Prop :=
 
 /-- The property theorems of this file (for the audit). -/
 def theorems : List String :=
-  ["GoLevel.C08.fault_safe_partial", "GoLevel.C08.fault_safe_jobs", "GoLevel.C08.fault_safe_writer_partial",
+  ["GoLevel.C08.fault_safe_partial", "GoLevel.C08.fault_safe_jobs", "GoLevel.C08.fault_safe_writer",
    "GoLevel.C08.d4_loses_acked_write"]
 
 end GoLevel.C08
